@@ -5,6 +5,8 @@ import Secp.Proofs.ElementApiTies
 import Secp.Proofs.ElementApiTiesEq
 import Secp.Proofs.ElementApiTiesConstr
 import Secp.Proofs.DecodeTies
+import Secp.Proofs.ElementMulTies
+import Secp.Proofs.ScalarCodecTies
 /-!
 # C10 — any history of element and scalar operations matches the abstract group model
 
@@ -74,6 +76,14 @@ theorem element_steps_tied {α : Type} (F : FieldOps α) (e : Pt α) (v : Option
     GenElementAPI.set F w = w ∧ GenElementAPI.copy F w = w ∧ GenElementAPI.equal_e_v F e w = Hand.Element.equal F e w ∧
     GenElementAPI.isIdentity F e = Hand.Element.isIdentity F e :=
   ⟨ElementApiTies.add_tie F e v, rfl, rfl, rfl, ElementApiTies.subtract_tie F e v, rfl, rfl, rfl, rfl, rfl⟩
+
+/-- the scalar-multiplication step of the concrete machine is the `Multiply` regenerated from `element.go` (nil test, `IsOne`
+shortcut, bit expansion, 256 ladder iterations), which never panics; the scalar decoding step is the regenerated `Decode`
+of `scalar.go` -/
+theorem multiply_step_tied {α : Type} (F : FieldOps α) (e : Pt α) (k : Option L4) (s : L4) (b : Bytes) :
+    GenElementMul.element_multiply F e k = some (Hand.Element.multiply F e k) ∧
+    GenScalarCodec.scalar_decode s b = some (ScalarCodecTies.shape (Hand.Scalar.decode s b)) :=
+  ⟨ElementMulTies.multiply_tie F e k, ScalarCodecTies.decode_tie s b⟩
 
 /-- the decoding step of the concrete machine is the regenerated `Decode` of `element.go` -/
 theorem decode_step_tied (e : Pt L4) (data : Bytes) :
